@@ -172,3 +172,81 @@ Proof.
   rewrite !andb_true_iff. intros [[H1 H2] H3]. constructor; [lia | | auto].
   intros b' e' Hin. rewrite forallb_forall in H2. specialize (H2 _ Hin). cbn [fst] in H2. lia.
 Qed.
+
+(** * private blocks = complement of the shared blocks *)
+Lemma priv_from_covers : forall shared cur size x,
+  (forall b e, In (b, e) shared -> cur <= b /\ e <= size) -> sorted shared -> cur <= size ->
+  (covered (priv_from cur size shared) x <-> cur <= x < size /\ ~ covered shared x).
+Proof.
+  induction shared as [| [b e] r IH]; intros cur size x Hb Hs Hc.
+  - cbn [priv_from]. destruct (cur <? size) eqn:E.
+    + rewrite covered_single. split; [intros H; split; [lia | apply covered_nil] | intros [H _]; lia].
+    + split; [intros H; destruct (covered_nil _ H) | intros [H _]; lia].
+  - cbn [priv_from]. inversion Hs as [| ? ? ? Hbe Hall Hs']; subst.
+    destruct (Hb b e (or_introl eq_refl)) as [Hcb Hes].
+    rewrite covered_app, IH; [| intros b' e' Hin; split; [apply (Hall _ _ Hin) | apply (Hb _ _ (or_intror Hin))] | assumption | lia].
+    rewrite (covered_cons b e r).
+    assert (Hr : covered r x -> e <= x).
+    { intros (b' & e' & Hin & Hx). specialize (Hall _ _ Hin). lia. }
+    destruct (cur <? b) eqn:E.
+    + rewrite covered_single. split.
+      * intros [H | [H1 H2]].
+        -- split; [lia |]. intros [H3 | H3]; [lia | apply Hr in H3; lia].
+        -- split; [lia |]. intros [H3 | H3]; [lia | exact (H2 H3)].
+      * intros [H1 H2]. destruct (Z_lt_le_dec x b) as [Hx | Hx]; [left; lia |].
+        right. split; [| intro H3; apply H2; right; exact H3].
+        destruct (Z_lt_le_dec x e); [exfalso; apply H2; left; lia | lia].
+    + split.
+      * intros [H | [H1 H2]]; [destruct (covered_nil _ H) |]. split; [lia |].
+        intros [H3 | H3]; [lia | exact (H2 H3)].
+      * intros [H1 H2]. right. split; [| intro H3; apply H2; right; exact H3].
+        destruct (Z_lt_le_dec x e); [exfalso; apply H2; left; lia | lia].
+Qed.
+
+Lemma priv_blocks_complement shared size x :
+  (forall b e, In (b, e) shared -> 0 <= b /\ e <= size) -> sorted shared -> 0 <= size ->
+  (covered (priv_blocks size shared) x <-> 0 <= x < size /\ ~ covered shared x).
+Proof. intros; unfold priv_blocks; apply priv_from_covers; auto. Qed.
+
+Lemma priv_from_lower : forall shared cur size b' e',
+  (forall b e, In (b, e) shared -> cur <= b /\ e <= size) -> sorted shared ->
+  In (b', e') (priv_from cur size shared) -> cur <= b'.
+Proof.
+  induction shared as [| [b e] r IH]; intros cur size b' e' Hb Hs Hin.
+  - cbn [priv_from] in Hin. destruct (cur <? size); [| destruct Hin].
+    destruct Hin as [Hin | []]. inversion Hin; lia.
+  - cbn [priv_from] in Hin. inversion Hs as [| ? ? ? Hbe Hall Hs']; subst.
+    destruct (Hb b e (or_introl eq_refl)) as [Hcb Hes].
+    apply in_app_or in Hin. destruct Hin as [Hin | Hin].
+    + destruct (cur <? b); [| destruct Hin]. destruct Hin as [Hin | []]. inversion Hin; lia.
+    + apply IH in Hin; [lia | | assumption].
+      intros b2 e2 Hin2; split; [apply (Hall _ _ Hin2) | apply (Hb _ _ (or_intror Hin2))].
+Qed.
+
+Lemma priv_from_sorted : forall shared cur size,
+  (forall b e, In (b, e) shared -> cur <= b /\ e <= size) -> sorted shared -> sorted (priv_from cur size shared).
+Proof.
+  induction shared as [| [b e] r IH]; intros cur size Hb Hs.
+  - cbn [priv_from]. destruct (cur <? size) eqn:E; repeat constructor; try lia. intros ? ? [].
+  - cbn [priv_from]. inversion Hs as [| ? ? ? Hbe Hall Hs']; subst.
+    destruct (Hb b e (or_introl eq_refl)) as [Hcb Hes].
+    assert (Hb' : forall b2 e2, In (b2, e2) r -> e <= b2 /\ e2 <= size).
+    { intros b2 e2 Hin2; split; [apply (Hall _ _ Hin2) | apply (Hb _ _ (or_intror Hin2))]. }
+    assert (IH' : sorted (priv_from e size r)) by (apply IH; assumption).
+    destruct (cur <? b) eqn:E; [| exact IH']. cbn [app]. constructor; [lia | | exact IH'].
+    intros b' e' Hin. apply priv_from_lower in Hin; [lia | assumption | assumption].
+Qed.
+
+Lemma e2e_spec ssize sshared dsize dshared soff doff size x :
+  0 <= soff -> 0 <= doff -> 0 <= size -> 0 <= ssize -> 0 <= dsize ->
+  sorted sshared -> sorted dshared ->
+  (forall b e, In (b, e) sshared -> 0 <= b /\ e <= ssize) ->
+  (forall b e, In (b, e) dshared -> 0 <= b /\ e <= dsize) ->
+  (covered (e2e ssize sshared dsize dshared soff doff size) x <->
+   0 <= x < size /\ (0 <= x + soff < ssize /\ ~ covered sshared (x + soff))
+                 /\ (0 <= x + doff < dsize /\ ~ covered dshared (x + doff))).
+Proof.
+  intros. unfold e2e. rewrite private_bytes_copied; auto;
+    try (unfold priv_blocks; apply priv_from_sorted; auto).
+  rewrite !priv_blocks_complement by auto. tauto.
+Qed.
